@@ -2,7 +2,7 @@ module vharness
 
 go 1.24.0
 
-replace github.com/arr-ai/arrai => /var/tmp/mt-C02-mutB
+replace github.com/arr-ai/arrai => /repo
 
 replace github.com/spf13/afero => github.com/anz-bank/afero v1.2.4
 
